@@ -1,5 +1,6 @@
 import collections
 import hashlib
+import io
 import pickle
 import threading
 
@@ -39,6 +40,18 @@ def share_equal_indices(inputs, output, size_dict):
     return inputs, output, size_dict
 
 
+def _dumps(obj):
+    """Pickle ``obj`` without memoizing by identity, so that two *equal*
+    objects give the same bytes, no matter which of their (nested) parts
+    happen to be the same python objects.
+    """
+    f = io.BytesIO()
+    p = pickle.Pickler(f)
+    p.fast = True
+    p.dump(obj)
+    return f.getvalue()
+
+
 def hash_contraction_a(inputs, output, size_dict):
     if any(not isinstance(d, int) for d in size_dict.values()):
         # hashing e.g. numpy int won't match!
@@ -47,7 +60,7 @@ def hash_contraction_a(inputs, output, size_dict):
     inputs, output, size_dict = share_equal_indices(inputs, output, size_dict)
 
     return hashlib.sha1(
-        pickle.dumps(
+        _dumps(
             (
                 tuple(map(sortedtuple, inputs)),
                 sortedtuple(output),
@@ -81,7 +94,7 @@ def hash_contraction_b(inputs, output, size_dict):
 
     # n.b. need the number of tensors too, since scalars have no edges
     return hashlib.sha1(
-        pickle.dumps(
+        _dumps(
             (len(inputs), canonical_edges, sortedtuple(size_dict.items()))
         )
     ).hexdigest()
